@@ -22,6 +22,7 @@ EXPLANATION = (
     "timePropertiesDS fields. ANN-3: send_announce passes the live state (the with_ref closure parameter) to "
     "Message::announce, inside the same call. ANN-4: AnnounceMessage::time_properties inverts the flag wiring. "
     "ANN-5: set_clock_quality / set_slave_only write exactly the defaultDS field they name."
+    " ANN-7 (= C05 BMCA-7 on calculate_recommended_state): the state decision has the rows of the standard's table for every port state (a Master port without a foreign master still gets M1/M2)."
 )
 NOT_DECIDED = "timing ('the next Announce sent'); equality of values at run time"
 
